@@ -187,7 +187,7 @@ def fe_matrix(fam, grid, t):
     if fam.endswith('_c'):
         n = K.shape[0]
         G = tab(n * n, 22, t).reshape(n, n)
-        S = np.triu(0.2 * np.abs(K) * G, 1)
+        S = np.triu(0.03 * np.abs(K) * G, 1)      # Hermitian imaginary part on the pattern of K
         K = K + 1j * (S - S.T)
     K.setflags(write=False)
     _FE[key] = K
@@ -511,13 +511,14 @@ def execute(case):
             break
         tol = 2 * case['tol'] if is_cg else None
         ok = True
+        stop = False        # set when the matrix was modified: later answers of this history would be meaningless
         # ---- solves -------------------------------------------------------------------------------------------
         for tr in case['trans']:
             for rn in case['rhs']:
                 x0s = case.get('x0', ['none']) if is_cg else ['none']
                 for x0k in x0s:
                     point = [step, tr, rn, x0k]
-                    if only_step is not None and step != only_step:
+                    if stop or (only_step is not None and step != only_step):
                         continue
                     b = make_rhs(rn, n, t)
                     if is_cg and zc_hit[0] and only_step is None and has_zero_column(b):
@@ -583,7 +584,8 @@ def execute(case):
                     if not same_as_snapshot(Ain, snap):
                         viol('matrix_mutated', dict(base, stage='solve', storage=storage), det, point)
                         ok = False
-                        break
+                        stop = True
+                        continue
                     if x.shape != b.shape:
                         viol('shape', dict(base, rhs_ndim=b.ndim), dict(det, got=list(x.shape), want=list(b.shape)),
                              point)
@@ -618,6 +620,8 @@ def execute(case):
                         viol('residual', sig, dict(det, residual=res, bound=bound, x=x, magnitude=mag(res)), point)
                         ok = False
         outcomes.add(f"{case['solver']}>{lab}/{var}/{mclass}/{'ok' if ok else 'bad'}")
+        if stop:
+            break
 
     # a narrowed descriptor must reproduce its own violation; otherwise keep the full case
     if only_step is None:
@@ -646,7 +650,7 @@ def matrix_points(fams, sizes, pattern_max_n):
     pts = []
     for n in sizes:
         for fam in fams:
-            if fam in TRI_FAMS and n <= min(3, pattern_max_n):
+            if fam in TRI_FAMS and n <= pattern_max_n:
                 continue            # triangular matrices of that size are among the patterns of the general family
             if fam in ('symzd_r', 'hermzd_c') and n == 1:
                 continue            # the 1x1 zero matrix
@@ -710,7 +714,7 @@ def cg_fe_cases(t, grids, fams, precs, tols, storages, x0_rhs, ctor='update'):
 
 SIZES = [1, 2, 3, 5, 8]
 GRIDS_Q = [(2, 2, 0), (4, 2, 0), (4, 4, 0), (2, 2, 2)]
-GRIDS_T = [(2, 4, 0), (6, 2, 0), (4, 4, 2)]
+GRIDS_T = [(2, 4, 0), (4, 6, 0), (2, 2, 4), (4, 4, 2)]
 X0_RHS_Q = ['vec', 'blkdep', 'blkz', 'cvec']
 X0_RHS_T = RHS_ALL
 
